@@ -68,7 +68,7 @@ func c05Gen(tp *Tapes) *c05Spec {
 	sp.SharedCtx = g.Draw(2) == 1
 	sp.strat = pickStrategy(g)
 	sp.Strat = sp.strat.String()
-	k := 2 + g.DrawD(3, 5)
+	k := 2 + g.DrawD(3, 7) // (deep: up to 8 tasks, the scheduler's maximum)
 	f := tp.Fault
 	for t := 0; t < k; t++ {
 		n := 1 + g.DrawD(4, 8)
